@@ -99,6 +99,11 @@ def worker(i):
                         print(s, "DOES NOT COMPILE", flush=True)
                     continue
                 hits = run_checks(env)
+                if "tendril/src/stream.rs" in open(patch).read() or "tendril/src/utf8_decode.rs" in open(patch).read():
+                    # the encoding_rs rules (R10.6, R10.9) exist in the thorough tier only: run it for patches that touch the decoders
+                    out = subprocess.run(["./check", "C10", "--tier", "thorough"], capture_output=True, text=True, env=env, cwd=SNAP)
+                    if out.returncode != 0:
+                        hits["C10/thorough"] = [l.strip()[:240] for l in out.stdout.splitlines() if l.strip().startswith("violated")][:12] or [out.stderr[-200:]]
                 with lock:
                     res[s] = {"false_alarms": hits}
                     print("%-30s %s" % (s, "silent" if not hits else "FALSE ALARM: " + "; ".join("%s(%s)" % (k, (v[0] if v else "")[:120]) for k, v in hits.items())), flush=True)
